@@ -7,6 +7,7 @@ every case.  The driver renders each abstract tag list (seeded order) under seve
 schemas, custom prefixes and separator, dict / ActiveTagValueProvider / CompositeActiveTagValueProvider, value
 objects, lazy callables, CompositeTagMatcher), calls the real should_exclude_with / should_run_with for all
 combinations of current values and TLC judges the recorded rows with the definitional formula."""
+import functools
 import json
 import logging
 import operator
@@ -33,8 +34,10 @@ class Kind(object):
 
     def __init__(self, name, kind, op, vals, currents, wrap):
         self.name, self.kind, self.op, self.vals, self.currents, self.wrap = name, kind, op, vals, currents, wrap
-        self.vo = wrap != "raw"
-        self.lazy = "callable" if wrap == "callable" else "vo" if wrap.startswith("lazy") else "no"
+        self.vo = wrap not in ("raw", "partial")
+        # callable / partial / partial_vo / callobj_vo: the provider entry itself is a callable (a function, a
+        # functools.partial, an object with __call__) that returns the current value -- or a value object -- when looked up
+        self.lazy = "callable" if wrap in ("callable", "partial", "partial_vo", "callobj_vo") else "vo" if wrap.startswith("lazy") else "no"
 
     def spec(self, cur):
         if self.kind == "str":
@@ -58,6 +61,18 @@ class Kind(object):
             return cell[0]
         if w == "callable":                       # a plain callable as provider value: evaluated lazily
             return lambda: cell[0]
+        if w == "partial":                        # ... the same as a functools.partial object
+            return functools.partial(lambda c: c[0], cell)
+        if w in ("partial_vo", "callobj_vo"):     # a callable that returns a VALUE OBJECT with its declared operator
+            cls = NumberValueObject if self.kind in ("num", "num2", "numset") else BoolValueObject if self.kind == "bool" else ValueObject
+            op = ops[self.op]
+            if w == "partial_vo":
+                return functools.partial(lambda c: cls(c[0], op), cell)
+
+            class _Lazy(object):
+                def __call__(self):
+                    return cls(cell[0], op)
+            return _Lazy()
         value = (lambda: cell[0]) if w.startswith("lazy") else cell[0]
         if self.kind in ("num", "num2", "numset"):
             return NumberValueObject(value, ops[self.op])
@@ -78,6 +93,9 @@ NUM_LE = Kind("num_le", "num", "le", ["10", "20"], [10, 15, 20], "lazy")
 NUM_GE_BAD = Kind("num_ge_bad", "num", "ge", ["10", "2x"], [10, 15, 5], "vo")
 NUM_LE_NEG = Kind("num_le_neg", "num", "le", ["-5", "010"], [-5, 0, 10], "vo")
 NUM_EQ_BAD = Kind("num_eq_bad", "num", "eq", ["ten", "10"], [10, 0, 20], "vo")
+NUM_GE_PARTIAL = Kind("num_ge_partial", "num", "ge", ["10", "20"], [10, 15, 20], "partial_vo")
+BOOL_CALLOBJ = Kind("bool_callobj", "bool", "eq", ["yes", "no"], [True, False, True], "callobj_vo")
+STR_PARTIAL = Kind("str_partial", "str", "eq", ["al", "bo"], ["al", "bo", "ch"], "partial")
 NUM_GE_HALF = Kind("num_ge_half", "num2", "ge", ["10", "20"], [10.5, 9.5, 20.0], "vo")
 NUM_LE_HALF = Kind("num_le_half", "num2", "le", ["10", "20"], [10.5, 19.5, 2.5], "lazy")
 NUM_IN = Kind("num_in", "numset", "contains", ["10", "20"], [[10, 15], [10, 20], []], "vo")
@@ -120,6 +138,10 @@ CONFIGS = [
     Cfg("comp_atvp_lazyvo", pk="comp", mpk=("atvp", "atvp"), mem=(1, 2), k1=STR_LAZY, k2=NUM_LE, cats=("os", "temp.max", "zz")),
     Cfg("comp_atvp_callable", pk="comp", mpk=("dict", "atvp"), mem=(2, 1), k1=STR_CALL, k2=STR_LAZY),
     Cfg("vo_num_ge_le", k1=NUM_GE, k2=NUM_LE, cats=("temp.min_value", "temp.max_value", "temp.value")),
+    # (through ActiveTagValueProvider, whose use_value() evaluates callables: the documented lazy path.  With a plain dict as
+    #  provider the matcher wraps the callable itself into an eq value object -- see DESIGN 11.5, observed / not judged)
+    Cfg("lazy_partial_vo", k1=NUM_GE_PARTIAL, k2=STR_PARTIAL, pk="atvp", cats=("cpus.min", "os", "zz")),
+    Cfg("lazy_callobj_vo", k1=BOOL_CALLOBJ, k2=NUM_GE_PARTIAL, pk="atvp", cats=("py3", "cpus.min", "zz")),
     Cfg("vo_num_half", k1=NUM_GE_HALF, k2=NUM_LE_HALF, cats=("temp.min_value", "temp.max_value", "temp.value")),
     Cfg("vo_num_in_half", k1=NUM_IN, k2=NUM_GE_HALF, pk="atvp", cats=("port", "load", "zz")),
     Cfg("vo_num_bad_bool", k1=NUM_GE_BAD, k2=BOOL, cats=("level", "py3", "zz")),
